@@ -178,16 +178,22 @@ def generate(rng, tier, seed):
     for ver, (bs, ksizes, ml) in VERS.items():
         kbpk = rb(rng, ksizes[-1])
         for alg in ("T", "A"):
-            m0 = eff_mask(alg, None, 0)
+          for mk in (None, "default", 40, 2048):            # no mask; the default given explicitly; other explicit masks
+            m0 = eff_mask(alg, None, 0) if mk in (None, "default") else mk
+            mask_arg = None if mk is None else m0
             full = 16 + 2 * (((2 + m0) // bs + 1) * bs) + 2 * ml      # without optional blocks
-            for dl in range(9999 - full - 10 - 90, 9999 - full - 10 + 8, 1 if tier == "thorough" else 7):
-                c = Case(f"{ver}:{alg}:near-limit", {"data": dl})
-                c.key = (ver, alg, "near-limit", dl)
+            step = 1 if tier == "thorough" else (7 if mk is None else 13)
+            for dl in range(9999 - full - 10 - 90, 9999 - full - 10 + 8, step):
+                if dl < 0:
+                    continue
+                c = Case(f"{ver}:{alg}:near-limit", {"data": dl, "mask": mask_arg})
+                c.key = (ver, alg, "near-limit", dl, mk)
                 outcomes = {}
-                for kl in (0, 5, 6, 13, 14, 16, 22, m0):
-                    h = make_header(rng, ver, [("T0", "x" * dl)], alg=alg, reserved="00")
-                    w = call_impl("tr31.wrap", (kbpk, h, rb(rng, kl), None), stream="tr31")
+                blocks_ = [("T0", "x" * dl)] if dl <= 9000 else [("T0", "x" * 4000), ("T1", "y" * (dl - 4000 - 10))]
+                for kl in (0, 5, 6, 13, 14, 16, 22, min(m0, 24), m0 if m0 <= 64 else 33):
+                    h = make_header(rng, ver, blocks_, alg=alg, reserved="00")
+                    w = call_impl("tr31.wrap", (kbpk, h, rb(rng, kl), mask_arg), stream="tr31")
                     outcomes[kl] = len(w.value) if w.ok else w.err
                 if len(set(outcomes.values())) > 1:
-                    c.fail(f"near the 9999 limit the outcome depends on the key length within the mask: {outcomes}")
+                    c.fail(f"near the 9999 limit (mask {mask_arg}) the outcome depends on the key length within the mask: {outcomes}")
                 yield c
